@@ -402,7 +402,7 @@ CHECKS["C02"] = make_check("C02", c02_plans,
     "with another key or the SAME key under another origin, no/truncated signature block, garbage) x all states of the bounded models x every log id incl. an unknown one; "
     "renderings chosen by seed; judged by Authentic on verdict, returned bytes and stored state; distinct = distinct (pre-state, request, verdict) of update steps; the per-log verifier "
     "comes from configuration: generated configurations (incl. an entry whose key string borrows another entry's key name and hash) go through the real Main (Trace_Start)", any_update,
-    post_all=lambda work, rep, tier, seed: __import__("checks_omni").startup_part(work, rep, tier, seed, "C02"))
+    post_all=lambda work, rep, tier, seed: (__import__("checks_omni").startup_part(work, rep, tier, seed, "C02"), __import__("checks_omni").keytypes_part(work, rep, seed, "C02")))
 
 # ----------------------------------------------------------------------------- C04
 
